@@ -131,8 +131,14 @@ class Interp(Exec):
         st.nfresh += 1
         n = f"s{st.nfresh}"
         v = self.mk_abstract(ty, f"{base}!{n}", bs)
+        return self.heapify(st, v)
+
+    def heapify(self, st, v):
+        """Heap objects of a fresh abstract value get their own roots (also inside a result tuple)."""
         if isinstance(v, H):
             return self.alloc(st, v)
+        if isinstance(v, VTuple) and any(isinstance(i, H) for i in v.items):
+            return VTuple([self.alloc(st, i) if isinstance(i, H) else i for i in v.items])
         return v
 
     # ------------------------------------------------------------------ names
@@ -649,9 +655,9 @@ class Interp(Exec):
             return t_or(*[self.eq(st, VStr(n), x) for n in self.schema.fields(h.cls)])
         if isinstance(cont, VFam):
             return self.exists(cont.binders, t_and(cont.guard, self.eq(st, cont.elem, x)))
-        if isinstance(cont, VRef):
-            h = self.resolve(st, cont)
-            if isinstance(h, HObj):
+        if isinstance(cont, (VRef, H)):
+            h = self.resolve(st, cont) if isinstance(cont, VRef) else cont
+            if isinstance(h, HObj) and isinstance(cont, VRef):
                 return self.obj_contains(st, cont, h, x)
             if isinstance(h, (HList, HPySet)):
                 return t_or(*[self.eq(st, i, x) for i in h.items])
